@@ -55,6 +55,19 @@ func checkStream(c *mon.C, shapes []gen.Shape, side ref.Side, nplans int) bool {
 			}
 		}
 	}
+	if c.Rng.Intn(6) == 0 {
+		// a peer that masks every frame with ONE key (legal: the key only has to be unpredictable to the
+		// application that supplies the payload): a reader keeps nothing of one frame's masking for the next
+		var k [4]byte
+		c.Rng.Read(k[:])
+		for _, fs := range [][]ref.Frame{framesA, framesB, framesU} {
+			for i := range fs {
+				if fs[i].H.Masked {
+					fs[i].H.Mask = k
+				}
+			}
+		}
+	}
 	nCont := 0
 	for _, s := range shapes {
 		if s.Op == ref.OpCont {
